@@ -1278,6 +1278,213 @@ pub fn branch_family(mut emit: impl FnMut(X)) {
     }
 }
 
+
+// ---------------------------------------------------------------------------------------------------------------
+// Deep family: expressions as TEXT, taken the way a rule filter is (parser, checker with the default request, then the
+// evaluator), over nesting depths around and far beyond the limits. What is accepted must evaluate to a boolean; what
+// is refused must be refused with a message. A stack overflow of the recursive checker or evaluator ends the process:
+// every expression is therefore handled in a CHILD process (this test binary again, `deep_child`), on threads with
+// the stack sizes of the real binary (8 MiB for loading, 2 MiB for a runtime worker).
+pub fn deep_family(thorough: bool) -> Vec<(String, String)> {
+    fn nest(k: usize, n: usize) -> String {
+        let mut e = "1".to_string();
+        for _ in 0..k {
+            e = format!("({}){}", e, "+0".repeat(n));
+        }
+        e
+    }
+    let mut out: Vec<(String, String)> = vec![];
+    // (parentheses, operators per level): the tree is about k*(n+1) levels deep
+    let shapes: Vec<(usize, usize)> = if thorough {
+        vec![(1, 60), (1, 100), (1, 120), (1, 126), (1, 127), (1, 128), (1, 200), (1, 255), (2, 50), (2, 62), (2, 63), (2, 64), (2, 100), (4, 30), (4, 31), (4, 32), (4, 100), (4, 250), (6, 250), (8, 250), (10, 250), (12, 250), (16, 250), (24, 250), (31, 250)]
+    } else {
+        vec![(1, 100), (1, 126), (1, 128), (2, 62), (2, 64), (4, 31), (4, 250), (8, 250), (16, 250), (24, 250)]
+    };
+    for (k, n) in &shapes {
+        let e = nest(*k, *n);
+        let levels = k * (n + 1);
+        out.push((format!("plain chain {k}x{n} (~{levels} levels)"), format!("{e} == 1")));
+        out.push((format!("chain {k}x{n} inside an array"), format!("[{e}][0] == 1")));
+        out.push((format!("chain {k}x{n} inside a tuple"), format!("({e},).0 == 1")));
+        out.push((format!("chain {k}x{n} inside a let binding"), format!("let a = {e} in a == 1")));
+        out.push((format!("chain {k}x{n} inside a template"), format!("`${{to_string({e})}}` == \"1\"")));
+        out.push((format!("chain {k}x{n} inside a call"), format!("to_string({e}) == \"1\"")));
+        out.push((format!("chain {k}x{n} inside an array inside a let"), format!("let a = [{e}, 2] in 1 _: a")));
+    }
+    // chains of lets: K bindings, each N operators over the previous one - the tree is about N + K levels deep, the
+    // evaluation of the last name walks through all of them
+    let towers: Vec<(usize, usize)> = if thorough {
+        vec![(2, 60), (2, 88), (2, 92), (3, 58), (3, 61), (2, 100), (2, 120), (3, 80), (4, 60), (5, 100), (8, 100), (12, 100), (16, 100), (20, 100), (30, 100), (28, 95), (29, 120), (2, 126), (10, 20), (20, 10), (60, 3), (100, 1), (120, 1)]
+    } else {
+        vec![(2, 60), (2, 88), (3, 58), (2, 120), (5, 100), (12, 100), (20, 100), (28, 95), (29, 120), (60, 3), (100, 1)]
+    };
+    for (k, n) in &towers {
+        let mut e = "let x0 = 1 in ".to_string();
+        for i in 1..=*k {
+            e += &format!("let x{} = x{}{} in ", i, i - 1, "+0".repeat(*n));
+        }
+        out.push((format!("let tower {k} bindings x {n} operators"), format!("{e}x{k} == 1")));
+        // the same with all bindings in ONE let is not expressible (a binding does not see its siblings); the
+        // names used under a conditional whose other branch is shallow: the checker may see a name first where it
+        // is shallow, the evaluator where it is deep
+        let mut e = "let x0 = 1 in ".to_string();
+        for i in 1..=*k {
+            e += &format!("let x{} = if request.target.port == 0 then x{}+0 else (x{}{}) in ", i, i - 1, i - 1, "+0".repeat(*n));
+        }
+        out.push((format!("let tower {k} x {n}, deep use behind a conditional"), format!("{e}(if request.target.port == 0 then x{k}+0 else x{k}{}) == 1", "+0".repeat(*n))));
+        let mut e = "let x0 = 1 in ".to_string();
+        for i in 1..=*k {
+            e += &format!("let x{} = [x{}{}, 0][0] in ", i, i - 1, "+0".repeat(*n));
+        }
+        out.push((format!("let tower {k} x {n} through arrays"), format!("{e}x{k} == 1")));
+    }
+    out
+}
+
+#[derive(Debug, Clone, PartialEq)]
+enum DeepVerdict {
+    RefusedByParser(String),
+    RefusedByChecker(String),
+    Accepted(Vec<String>),
+    Died(String, String),
+}
+
+/// the child: handles expressions `from..` of the list file, one line of output per step
+#[test]
+#[ignore]
+fn deep_child() {
+    let Ok(file) = std::env::var("VERIF_C08_DEEP") else { return };
+    let from: usize = std::env::var("VERIF_C08_DEEP_FROM").ok().and_then(|x| x.parse().ok()).unwrap_or(0);
+    let list: Vec<(String, String)> = serde_json::from_str(&std::fs::read_to_string(file).unwrap()).unwrap();
+    let envs = envs();
+    use std::io::Write;
+    let say = |s: String| {
+        let mut o = std::io::stdout().lock();
+        writeln!(o, "{}", s).unwrap();
+        o.flush().unwrap();
+    };
+    for (i, (_, text)) in list.iter().enumerate().skip(from) {
+        say(format!("DEEP {i} load"));
+        let t = text.clone();
+        // loading happens on the main thread of the real binary: 8 MiB
+        let loaded = std::thread::Builder::new()
+            .stack_size(8 << 20)
+            .spawn(move || -> Result<Value, (u8, String)> {
+                let root = milu::parser::parse(&t).map_err(|e| (0u8, format!("{e}")))?;
+                let ctx = create_context(Default::default());
+                let ty = root.type_of(ctx.into()).map_err(|e| (1u8, format!("{e}")))?;
+                if ty != Type::Boolean {
+                    return Err((1u8, format!("filter return type mismatch: {ty}")));
+                }
+                Ok(root)
+            })
+            .unwrap()
+            .join()
+            .unwrap();
+        let root = match loaded {
+            Err((0, m)) => {
+                say(format!("DEEP {i} refused-parser {}", m.replace('\n', " ").chars().take(120).collect::<String>()));
+                continue;
+            }
+            Err((_, m)) => {
+                say(format!("DEEP {i} refused-checker {}", m.replace('\n', " ").chars().take(120).collect::<String>()));
+                continue;
+            }
+            Ok(r) => r,
+        };
+        say(format!("DEEP {i} eval"));
+        let envs2: Vec<Arc<ContextProps>> = envs.iter().take(3).map(|e| e.props.clone()).collect();
+        // a request is handled by a runtime worker: 2 MiB
+        let outs = std::thread::Builder::new()
+            .stack_size(2 << 20)
+            .spawn(move || {
+                let mut outs = vec![];
+                for p in envs2 {
+                    let ctx = create_context(p);
+                    outs.push(match root.value_of(ctx.into()) {
+                        Ok(Value::Boolean(b)) => format!("{b}"),
+                        Ok(v) => format!("not-a-boolean:{}", value_kind(&v)),
+                        Err(e) => format!("error:{}", format!("{e}").replace('\n', " ").chars().take(100).collect::<String>()),
+                    });
+                }
+                // the tree is dropped here, on the small stack, like a replaced rule list is
+                drop(root);
+                outs
+            })
+            .unwrap()
+            .join()
+            .unwrap();
+        say(format!("DEEP {i} accepted {}", outs.join("|")));
+    }
+    say("DEEP done".to_string());
+}
+
+fn run_deep_family(chk: &Check, list: &[(String, String)]) -> Vec<DeepVerdict> {
+    let file = format!("/verif/target/c08-deep-{}.json", std::process::id());
+    std::fs::write(&file, serde_json::to_string(list).unwrap()).unwrap();
+    let exe = std::env::current_exe().unwrap();
+    let mut verdicts: Vec<Option<DeepVerdict>> = vec![None; list.len()];
+    let mut from = 0usize;
+    let mut launches = 0;
+    while from < list.len() {
+        launches += 1;
+        if launches > list.len() + 2 {
+            machinery("deep family: the child makes no progress");
+        }
+        let out = std::process::Command::new(&exe)
+            .args(["--exact", "verif::c08::deep_child", "--ignored", "--nocapture", "--test-threads", "1"])
+            .env("VERIF_C08_DEEP", &file)
+            .env("VERIF_C08_DEEP_FROM", from.to_string())
+            .output()
+            .unwrap_or_else(|e| machinery(format!("deep family: can not start the child: {e}")));
+        let stdout = String::from_utf8_lossy(&out.stdout).to_string();
+        let stderr = String::from_utf8_lossy(&out.stderr).to_string();
+        let mut cur: Option<(usize, String)> = None;
+        let mut done = false;
+        for line in stdout.lines() {
+            let Some(rest) = line.strip_prefix("DEEP ") else { continue };
+            if rest == "done" {
+                done = true;
+                continue;
+            }
+            let mut it = rest.splitn(3, ' ');
+            let i: usize = it.next().unwrap().parse().unwrap();
+            let what = it.next().unwrap_or("");
+            let tail = it.next().unwrap_or("").to_string();
+            match what {
+                "load" | "eval" => cur = Some((i, what.to_string())),
+                "refused-parser" => {
+                    verdicts[i] = Some(DeepVerdict::RefusedByParser(tail));
+                    cur = None;
+                }
+                "refused-checker" => {
+                    verdicts[i] = Some(DeepVerdict::RefusedByChecker(tail));
+                    cur = None;
+                }
+                "accepted" => {
+                    verdicts[i] = Some(DeepVerdict::Accepted(tail.split('|').map(|x| x.to_string()).collect()));
+                    cur = None;
+                }
+                _ => machinery(format!("deep family: unexpected child line {line:?}")),
+            }
+        }
+        if done {
+            break;
+        }
+        match cur {
+            Some((i, phase)) => {
+                let why = stderr.lines().filter(|l| l.contains("overflow") || l.contains("panicked") || l.contains("SIG")).last().unwrap_or("").chars().take(160).collect::<String>();
+                verdicts[i] = Some(DeepVerdict::Died(phase, format!("{:?} {}", out.status, why)));
+                from = i + 1;
+            }
+            None => machinery(format!("deep family: the child ended without a verdict or a step in progress: {:?} {}", out.status, stderr.chars().rev().take(300).collect::<String>().chars().rev().collect::<String>())),
+        }
+    }
+    let _ = std::fs::remove_file(&file);
+    let _ = chk;
+    verdicts.into_iter().map(|v| v.unwrap_or_else(|| machinery("deep family: an expression without a verdict"))).collect()
+}
+
 #[test]
 fn check() {
     let chk = Check::new("C08");
@@ -1406,6 +1613,45 @@ fn check() {
     }
     samples.push(show(&bf[bf.len() / 3 + 5]));
 
+
+    // deep family (text, child processes)
+    let df = deep_family(chk.thorough());
+    let dv = run_deep_family(&chk, &df);
+    let mut df_accepted = 0usize;
+    let mut df_refused = 0usize;
+    for ((label, text), v) in df.iter().zip(dv.iter()) {
+        let kind = label.split(" (").next().unwrap().split(' ').filter(|w| !w.chars().next().unwrap().is_ascii_digit()).collect::<Vec<_>>().join(" ");
+        let short: String = if text.len() > 160 { format!("{} ... {} ({} characters)", &text[..80], &text[text.len() - 60..], text.len()) } else { text.clone() };
+        match v {
+            DeepVerdict::RefusedByParser(m) | DeepVerdict::RefusedByChecker(m) => {
+                df_refused += 1;
+                if m.trim().is_empty() {
+                    chk.violation("evaluator.deep", &format!("refused-without-message:{kind}"), format!("{label}: refused without a message"), json!({"label": label, "expression": text}));
+                }
+            }
+            DeepVerdict::Accepted(outs) => {
+                df_accepted += 1;
+                runner.outcomes.add(&format!("deep:{kind}:{}", outs.join("|")));
+                if let Some(bad) = outs.iter().find(|o| *o != "true" && *o != "false") {
+                    chk.violation("evaluator.deep", &format!("accepted-then-fails:{kind}"), format!("{label}: accepted by parser and checker, evaluation gives {bad}: {short}"), json!({"label": label, "expression": text, "outcomes": outs}));
+                }
+            }
+            DeepVerdict::Died(phase, how) => {
+                chk.violation("evaluator.deep", &format!("process-dies:{phase}:{kind}"), format!("{label}: the process ends while the expression is {} ({how}): {short}", if phase == "load" { "parsed and checked (8 MiB stack)" } else { "evaluated after it was accepted (2 MiB stack)" }), json!({"label": label, "expression": text, "phase": phase}));
+            }
+        }
+    }
+    if chk.violation_count() == 0 && (df_accepted < 10 || df_refused < 10) {
+        machinery(format!("vacuous deep family: {} accepted, {} refused of {}", df_accepted, df_refused, df.len()));
+    }
+    samples.push(df[df.len() / 2].0.clone());
+    let deep_table: Vec<String> = df.iter().zip(dv.iter()).map(|((l, _), v)| format!("{l}: {}", match v {
+        DeepVerdict::RefusedByParser(m) => format!("refused by the parser ({})", m.chars().take(60).collect::<String>()),
+        DeepVerdict::RefusedByChecker(m) => format!("refused by the checker ({})", m.chars().take(60).collect::<String>()),
+        DeepVerdict::Accepted(o) => format!("accepted, evaluates to {}", o.join("|")),
+        DeepVerdict::Died(p, h) => format!("PROCESS DIED in {p} ({h})"),
+    })).collect();
+
     let trees = runner.trees.load(Ordering::Relaxed);
     let accepted = runner.accepted.load(Ordering::Relaxed);
     let evals = runner.evals.load(Ordering::Relaxed);
@@ -1416,10 +1662,10 @@ fn check() {
         "exhaustive": true,
         "states": runner.outcomes.len(), "transitions": evals + trees, "traces_validated_against_impl": trees,
         "evaluations": trees, "distinct_nontrivial": accepted,
-        "rule": "all trees with one operator node over the leaf set (depth 1, exhaustive); all trees with one operator node over leaves + one representative depth-1 tree per (static type, outcome vector) class (depth 2); thorough adds a depth-3 slice; every library function with 0-3 arguments over 7 atoms; wide arrays: all 3-member array literals over 12 atoms, indexed once / twice / by a request-dependent index and used in comparisons, membership and strcat; scoping family: 4 literals x 10 aggregate shapes mentioning a let-bound name x 16 uses x {plain, aggregate leaves the name's scope, sibling binding, name re-bound to each of 4 literals (nested / same let)}; branch family: conditionals whose branches have the same let structure over 8 x 8 leaves (5 literal types, request.target, request.source, request.target.host) x 10 x 10 shapes x 4 conditions x 14 consumers (incl. member access). non-trivial = accepted by the real checker (then evaluated under up to 6 request environments). states = distinct (static type, per-environment outcome) vectors",
+        "rule": "all trees with one operator node over the leaf set (depth 1, exhaustive); all trees with one operator node over leaves + one representative depth-1 tree per (static type, outcome vector) class (depth 2); thorough adds a depth-3 slice; every library function with 0-3 arguments over 7 atoms; wide arrays: all 3-member array literals over 12 atoms, indexed once / twice / by a request-dependent index and used in comparisons, membership and strcat; scoping family: 4 literals x 10 aggregate shapes mentioning a let-bound name x 16 uses x {plain, aggregate leaves the name's scope, sibling binding, name re-bound to each of 4 literals (nested / same let)}; branch family: conditionals whose branches have the same let structure over 8 x 8 leaves (5 literal types, request.target, request.source, request.target.host) x 10 x 10 shapes x 4 conditions x 14 consumers (incl. member access); deep family (as text, through the real parser, in child processes with the real stack sizes): operator chains of k parentheses x n operators plain and inside array / tuple / let binding / template / call, towers of K lets x N operators (plain, behind conditionals, through arrays) - accepted ones are evaluated, a dead child is a violation. non-trivial = accepted by the real checker (then evaluated under up to 6 request environments). states = distinct (static type, per-environment outcome) vectors",
         "trees": trees, "accepted_by_checker": accepted, "rejected_by_checker": runner.rejected.load(Ordering::Relaxed),
         "evaluations_run": evals, "compared_with_reference_value": runner.ref_compared.load(Ordering::Relaxed),
-        "leaves": leaves.len(), "depth1": d1.len(), "depth2_atoms": atoms2.len(), "depth2": d2.len(), "depth3": d3n, "arity_family": af.len(), "wide_arrays": wf.len(), "wide_arrays_accepted": wf_accepted, "scoping_family": sf.len(), "scoping_family_accepted": sf_accepted, "branch_family": bf.len(), "branch_family_accepted": bf_accepted,
+        "leaves": leaves.len(), "depth1": d1.len(), "depth2_atoms": atoms2.len(), "depth2": d2.len(), "depth3": d3n, "arity_family": af.len(), "wide_arrays": wf.len(), "wide_arrays_accepted": wf_accepted, "scoping_family": sf.len(), "scoping_family_accepted": sf_accepted, "branch_family": bf.len(), "branch_family_accepted": bf_accepted, "deep_family": df.len(), "deep_family_accepted": df_accepted, "deep_family_refused": df_refused, "deep_family_verdicts": deep_table,
         "environments": envs.iter().map(|e| e.name).collect::<Vec<_>>(),
         "samples": samples,
     });
